@@ -101,7 +101,7 @@ def run(ctx):
         for a in sets:
             # a word that completes is presented even when the previous word is handed over in the same cycle: the set is not
             # overridden by the clear (written guard = effective guard)
-            ok = B.equivalent(a.eff(), B.guard_formula(a.guards))
+            ok = q.EQ(a, B.guard_formula(a.guards))
             ctx.ob("S3", STREAM, cls, "strobe_all set wins over its clear", ok,
                    "" if ok else f"strobe_all <= 1 under {B.show(B.guard_formula(a.guards))} takes effect only under {B.show(a.eff())}: a word "
                                  f"completed in the cycle the previous one leaves is never presented (token lost, its last marker sticks to the "
@@ -267,7 +267,7 @@ def _s10(ctx):
         B.equivalent(B.guard_formula(cs[0]["guards"]), B.A("self.enable")) and cs[0]["conn"].omit is None
     ctx.ob("S10", STREAM, "Gate", "sink connected to source exactly when enabled", ok, "" if ok else f"{[(norm(c['conn'].src), norm(c['conn'].dst), c['guards']) for c in cs]}")
     rd = fx.find(domain="comb", target="self.sink.ready")
-    ok = len(rd) == 1 and B.equivalent(rd[0].eff(), B.Not(B.A("self.enable"))) and rd[0].v == "int(sink_ready_when_disabled)"
+    ok = len(rd) == 1 and q.EQ(rd[0], B.Not(B.A("self.enable"))) and rd[0].v == "int(sink_ready_when_disabled)"
     ctx.ob("S10", STREAM, "Gate", "disabled: sink.ready = the configured constant, nothing forwarded", ok, "" if ok else f"{[(a.v, a.gtext()) for a in rd]}")
     # ---- SyncFIFO arms
     fx = fx_of(ctx, STREAM, "SyncFIFO")
